@@ -763,7 +763,7 @@ pub fn pb_btree_map_w<const WHICH: u8>() {
     }
     chk!(WHICH == C05, n == el, "C05: encoded_len equals bytes written");
     // reference: entry message {1: key, 2: value}; defaults may be omitted or present
-    let enc_default = cfg!(feature = "pb_default");
+    let enc_default = cfg!(feature = "feat_on");
     let mut body = rp::Out::<24>::new();
     if k != 0 || enc_default {
         rp::key(&mut body, 1, rp::WT_VARINT);
